@@ -15,6 +15,13 @@ BinFails(a, b, inter, rev, env) ==
 \cup (IF SubsetRect(a, env) /\ SubsetRect(b, env) THEN {} ELSE {"env_contains"})
 \cup (IF (~IsEmpty(a) /\ ~IsEmpty(b)) => IsHull(a, b, env) THEN {} ELSE {"env_min"})
 
+\* rectangles more than 2^31 apart (sizes small): only comparisons, no differences that could leave 32 bits
+FarFails(a, b, inter, rev, panicked) ==
+  IF panicked = 1 THEN {"intersection_panicked"}
+  ELSE   (IF IsIntersection(a, b, inter) THEN {} ELSE {"inter_set"})
+    \cup (IF IsIntersection(b, a, rev) THEN {} ELSE {"inter_rev_set"})
+    \cup (IF SameSet(inter, rev) THEN {} ELSE {"inter_comm"})
+
 \* doubled middle of a side that is treated as at least one pixel long
 Mid2(pos, len) == 2 * pos + Max(len, 1) - 1
 AnchorCOK(pos, len, k, v) ==
